@@ -31,6 +31,15 @@ def scen_layouts(ch, params, out):
     twins = [ch.flag(f"twin_of_previous{i}") if i > 0 and params.get("twins") else False for i in range(n)]
     fw = ch.choose("framework", params.get("frameworks", ["base", "pydantic", "sqlmodel", "attrs", "dataclasses"]))
     policy = ch.choose("merge_policy", ["number_10 (nothing merges)", "default (twins merge into one model)"]) if any(twins) else "number_10"
+    # keys that name the models: plain (class name = camelized key) or keys whose class name is changed by the generator's name
+    # conversion (reserved typing names get a suffix, non-ASCII letters are transliterated); and which layout is rendered first from
+    # the registry (the conversion is written back into the model, so the second rendering sees converted names)
+    styled = params.get("model_keys") and ch.flag("model_keys_need_name_conversion")
+    order = ("flat", "nested") if not params.get("model_keys") or ch.flag("flat_rendered_first") else ("nested", "flat")
+    RENAMED = ["list", "donn\u00e9es", "dict", "any", "optional"]
+
+    def mkey(j):
+        return RENAMED[j] if styled else f"m{j}"
 
     ODD = "x\u2028y\u2029z\x85w"      # line separators other than \\n: legal in JSON strings, special for str.splitlines()
 
@@ -45,7 +54,7 @@ def scen_layouts(ch, params, out):
         o = dict(own_fields(i))
         for j in range(n):
             if parents[j] == i:
-                o[f"m{j}"] = wrapv(j)
+                o[mkey(j)] = wrapv(j)
         return o
 
     def wrapv(j):
@@ -61,13 +70,13 @@ def scen_layouts(ch, params, out):
     root2 = {"rootid": 2}
     for j in range(n):
         if parents[j] == -1:
-            root1[f"m{j}"] = wrapv(j)
+            root1[mkey(j)] = wrapv(j)
             if wraps[j] != "optional":
-                root2[f"m{j}"] = wrapv(j)
+                root2[mkey(j)] = wrapv(j)
     # optional edges below the root level: second occurrence of the parent lacks the child -> needs list parents; keep it simple:
     samples = [root1, root2]
-    out.info = {"parents": list(parents), "wraps": wraps, "twins": twins, "framework": fw, "policy": policy}
-    ctx = lambda: f"parents={parents} wraps={wraps} twins={twins} fw={fw} merge={policy}"
+    out.info = {"parents": list(parents), "wraps": wraps, "twins": twins, "framework": fw, "policy": policy, "styled": bool(styled), "order": order}
+    ctx = lambda: f"parents={parents} wraps={wraps} twins={twins} fw={fw} merge={policy} model_keys={'renamed' if styled else 'plain'} rendered={order}"
     try:
         gen, reg, _ = pipeline.infer({"Root": samples}, merge=[ModelFieldsNumberMatch(10)] if policy.startswith("number") else None, dkf=None)
     except Exception as e:
@@ -77,7 +86,7 @@ def scen_layouts(ch, params, out):
     kwargs = {"meta": True} if fw in ("attrs", "dataclasses") else {}
     texts, ems = {}, {}
     try:
-        for layout in ("flat", "nested"):
+        for layout in order:
             if layout == "nested" and not pipeline.is_tree(reg):
                 continue
             try:
@@ -165,12 +174,15 @@ def parts(tier):
     if tier == "quick":
         return [
             CH("trees3", "vflib.props.c12:scen_layouts", {"models": 3, "twins": True}, shards=6, timeout=170, path_timeout=30),
+            CH("trees3_converted_names", "vflib.props.c12:scen_layouts", {"models": 3, "model_keys": True, "frameworks": ["pydantic", "dataclasses", "attrs"]},
+               shards=6, timeout=170, path_timeout=30),
             CH("flat_any_graph", "vflib.props.c12:scen_flat_any_graph",
                {"pool": "KEY_POOL_QUICK", "styled": "k3", "templates": ["two_similar_children", "recursive", "deep_chain", "list_of_objects"]},
                shards=12, timeout=170, path_timeout=30),
         ]
     return [
         CH("trees4", "vflib.props.c12:scen_layouts", {"models": 4, "twins": True}, shards=16, timeout=400, path_timeout=30),
+        CH("trees4_converted_names", "vflib.props.c12:scen_layouts", {"models": 4, "model_keys": True}, shards=16, timeout=400, path_timeout=30),
         CH("flat_any_graph", "vflib.props.c12:scen_flat_any_graph",
            {"pool": "KEY_POOL_FULL", "styled": "k3", "templates": ["two_similar_children", "recursive", "deep_chain", "list_of_objects", "nested_object"]},
            shards=16, timeout=400, path_timeout=30),
